@@ -800,6 +800,14 @@ const char *UtilContext::get_hex(const char *token, uint32_t *num)
     s++;
   }
 
+  // No digits at all (for example "-20h"): the caller must not be handed
+  // back the same text, it would parse it again forever.
+  if (s == 0)
+  {
+    printf("Illegal number '%s'\n", token);
+    return nullptr;
+  }
+
   *num = n;
 
   // Step over the h or the space that ended the number.
